@@ -195,6 +195,9 @@ def exact_flow(r, payload, seed, part=None):
                     H = len(haps)
                     for si, s in enumerate(order):
                         P = stddata.PLOIDY[s]
+                        if math.comb(H + P - 1, P) > 3500:  # the pure-Python reference is slow; the hexaploid at a 10-allele record is left to C03's function-level jobs
+                            r.count("exact_flow_cases_skipped_large")
+                            continue
                         reads = ref.reads_from_array(np.asarray(data.read_dists[s], float))
                         counts = [int(c) for c in data.read_counts[s]]
                         gens = ref.multisets(range(H), P)
